@@ -43,6 +43,8 @@ TBatch ==
         /\ Ev.guard_res \in {"skip", "ok", "err"}
         /\ (Ev.guard_res # "skip" /\ Ev.mismatch = "none") => (Ev.guard_res = "ok" <=> AllOk(Ev))
         /\ (Ev.guard_res # "skip" /\ Ev.mismatch # "none") => Ev.guard_res = "err"
+        \* guards combined by hand (newcomer scaled by r^i, or accumulator scaled by r) and checked once: same law
+        /\ \A way \in {"power", "horner"} : Ev.combined[way] \in {"skip", "ok", "err"} /\ (Ev.combined[way] # "skip" => (Ev.combined[way] = "ok" <=> AllOk(Ev)))
         \* Accumulator: from_dual_msm / accumulate / collapse / check
         /\ ("each" \in DOMAIN Ev.acc) =>
               /\ \A k \in 1..n : Ev.acc.each[k] = (Ev.singles[k] = "ok")
